@@ -510,6 +510,12 @@ CONSTANT_PROFILES = {
 }
 
 
+def fresh_callback(d):
+    """a new callback object for descriptor d (callbacks carry a call counter)"""
+    cbk = tuple(d["cb"])
+    return _callback(cbk, {})
+
+
 def build(d):
     """descriptor -> dict(fun, x0, bounds, constraints, callback, options, constants, meta)"""
     from scipy.optimize import Bounds, NonlinearConstraint
@@ -535,8 +541,14 @@ def build(d):
             cons.append({"type": ck, "fun": f})
     if d["bf"] == "Bounds":
         bounds = Bounds(lb, ub)
+    elif d["bf"] == "Bounds_nan":     # "no bound" written as NaN, on caller-owned float arrays
+        bounds = Bounds(np.where(np.isfinite(lb), lb, np.nan), np.where(np.isfinite(ub), ub, np.nan))
+    elif d["bf"] == "array_nan":
+        bounds = np.column_stack([np.where(np.isfinite(lb), lb, np.nan), np.where(np.isfinite(ub), ub, np.nan)])
     else:
         bounds = np.column_stack([lb, ub])
+    if k_maxfev := {"k_irf15": 40, "k_drf25": 40, "k_misc": 40, "k_res": 40}.get(d["opt"]):
+        pass
     if all(p == "free" for p in bp) and d["bf"] == "Bounds" and d["x0"] == "inside" and n == 1:
         bounds = None
     state = {}
